@@ -45,6 +45,20 @@ with decodeK_absent (t : ftype) {struct t} : option gval :=
   | TStruct fl => option_map VStruct (decodeK_fields [] fl [])
   end
 
+(* the declared default of an absent field: for a slice, the elements its text stands for *)
+with decodeK_default (t : ftype) (d : string) {struct t} : option gval :=
+  match t with
+  | TPrim k => conv_string k d
+  | TPtr t' => option_map VPtr (decodeK_default t' d)
+  | TSlice e =>
+    match slice_default_doc e d with
+    | Some (JArr l) => decode_slice (decodeK_elem false e) (zero e) l
+    | Some JNull => if elem_is_string e then Some VNil else None
+    | _ => None
+    end
+  | _ => None
+  end
+
 with decodeK_fields (env : list obj) (fl : fields) (o : obj) {struct fl} : option (list gval) :=
   match fl with
   | FNil => Some []
@@ -53,7 +67,7 @@ with decodeK_fields (env : list obj) (fl : fields) (o : obj) {struct fl} : optio
            match field_inputK kc env t key o with
            | None =>
              match opt_default op with
-             | Some d => decode_default t d
+             | Some d => decodeK_default t d
              | None => if declared_optional op o then Some (zero t) else decodeK_absent t
              end
            | Some JNull => Some (zero t)
@@ -135,6 +149,19 @@ with meetsK_absent (t : ftype) {struct t} : bool :=
   | TStruct fl => negb (required_fields fl) && meetsK_fields [] fl []
   end
 
+(* a default is not validated against range / options; struct elements inside a default array
+   (none in the modelled fragment) would have to meet their own constraints *)
+with meetsK_default (t : ftype) (d : string) {struct t} : bool :=
+  match t with
+  | TPtr t' => meetsK_default t' d
+  | TSlice e =>
+    match slice_default_doc e d with
+    | Some (JArr l) => all_elems (meetsK_elem e) l
+    | _ => true
+    end
+  | _ => true
+  end
+
 with meetsK_fields (env : list obj) (fl : fields) (o : obj) {struct fl} : bool :=
   match fl with
   | FNil => true
@@ -144,7 +171,7 @@ with meetsK_fields (env : list obj) (fl : fields) (o : obj) {struct fl} : bool :
      match field_inputK kc env t key o with
      | None =>
        match opt_default op with
-       | Some _ => true
+       | Some d => meetsK_default t d
        | None => declared_optional op o || meetsK_absent t
        end
      | Some JNull => declared_optional op o
